@@ -296,6 +296,7 @@ func coordinator(id, tr string) int {
 			defer wg.Done()
 			from := int64(0)
 			gen := 0
+			deaths := 0
 			for {
 				gen++
 				outp := filepath.Join(scratch, fmt.Sprintf("w%d-%d.out.json", sh, gen))
@@ -365,7 +366,16 @@ func coordinator(id, tr string) int {
 					mu.Unlock()
 					return
 				}
-				_, died, tail := runReplaySub(id, dc.Case, scratch, fmt.Sprintf("dead-%d-%d", sh, gen))
+				// the first deaths of a shard are confirmed by re-running the case
+				// alone; later ones share the mechanism and are recorded as they are
+				died, tail := true, eb.String()
+				if len(tail) > 1500 {
+					tail = tail[len(tail)-1500:]
+				}
+				if deaths < 3 {
+					_, died, tail = runReplaySub(id, dc.Case, scratch, fmt.Sprintf("dead-%d-%d", sh, gen))
+				}
+				deaths++
 				mu.Lock()
 				if died {
 					why := classifyDeath(tail)
